@@ -137,4 +137,76 @@ theorem fileEtag_injective (i l s n i' l' s' n' : Nat)
   obtain ⟨e4, _⟩ := split_first_unique 34 _ _ _ _ (quote_not_mem_hex n) (quote_not_mem_hex n') h
   exact ⟨hex_injective _ _ e1, hex_injective _ _ e2, hex_injective _ _ e3, hex_injective _ _ e4⟩
 
+/-! ### Any modification time, before or after the epoch (`fileEtagS`) -/
+
+theorem fileEtagS_false (i l s n : Nat) : fileEtagS i l false s n = fileEtag i l s n := by
+  simp [fileEtagS, fileEtag, signedHex]
+
+theorem minus_not_mem_hex (n : Nat) : 45 ∉ hex n := by
+  intro h
+  have := hex_chars n 45 h
+  simp [isLowerHex] at this
+
+theorem colon_not_mem_signedHex (b : Bool) (n : Nat) : 58 ∉ signedHex b n := by
+  intro h
+  cases b <;> simp [signedHex] at h <;> exact colon_not_mem_hex n h
+
+theorem signedHex_injective (b b' : Bool) (s s' : Nat) (h : signedHex b s = signedHex b' s') :
+    b = b' ∧ s = s' := by
+  cases b <;> cases b' <;> simp only [signedHex, Bool.false_eq_true, if_false, if_true,
+    List.nil_append, List.cons_append, List.cons.injEq, true_and] at h
+  · exact ⟨rfl, hex_injective _ _ h⟩
+  · exact absurd (h ▸ List.mem_cons_self) (minus_not_mem_hex s)
+  · exact absurd (h.symm ▸ List.mem_cons_self) (minus_not_mem_hex s')
+  · exact ⟨rfl, hex_injective _ _ h⟩
+
+/-- For every modification time the ETag is a syntactically valid strong entity-tag: DQUOTE, then
+only hex digits, colons and `-`, then DQUOTE. -/
+theorem fileEtagS_wellformed (i l : Nat) (b : Bool) (s n : Nat) :
+    ∃ body : Bytes, fileEtagS i l b s n = [34] ++ body ++ [34] ∧
+      (∀ c ∈ body, isLowerHex c = true ∨ c = 58 ∨ c = 45) ∧ 34 ∉ body ∧
+      (fileEtagS i l b s n).head? = some 34 := by
+  refine ⟨hex i ++ [58] ++ hex l ++ [58] ++ signedHex b s ++ [58] ++ hex n, ?_, ?_, ?_, ?_⟩
+  · simp [fileEtagS, cQuote, cColon]
+  · intro c hc
+    simp only [List.mem_append, List.mem_singleton] at hc
+    rcases hc with (((((hc | hc) | hc) | hc) | hc) | hc) | hc
+    · exact Or.inl (hex_chars _ c hc)
+    · exact Or.inr (Or.inl hc)
+    · exact Or.inl (hex_chars _ c hc)
+    · exact Or.inr (Or.inl hc)
+    · cases b <;> simp [signedHex] at hc
+      · exact Or.inl (hex_chars _ c hc)
+      · rcases hc with hc | hc
+        · exact Or.inr (Or.inr hc)
+        · exact Or.inl (hex_chars _ c hc)
+    · exact Or.inr (Or.inl hc)
+    · exact Or.inl (hex_chars _ c hc)
+  · intro hc
+    simp only [List.mem_append, List.mem_singleton] at hc
+    rcases hc with (((((hc | hc) | hc) | hc) | hc) | hc) | hc
+    · exact quote_not_mem_hex _ hc
+    · omega
+    · exact quote_not_mem_hex _ hc
+    · omega
+    · cases b <;> simp [signedHex] at hc <;> exact quote_not_mem_hex _ hc
+    · omega
+    · exact quote_not_mem_hex _ hc
+  · simp [fileEtagS, cQuote]
+
+/-- Two ETags are equal only if inode, length and the modification time (side of the epoch,
+seconds, nanoseconds) are all equal. -/
+theorem fileEtagS_injective (i l : Nat) (b : Bool) (s n i' l' : Nat) (b' : Bool) (s' n' : Nat)
+    (h : fileEtagS i l b s n = fileEtagS i' l' b' s' n') :
+    i = i' ∧ l = l' ∧ b = b' ∧ s = s' ∧ n = n' := by
+  simp only [fileEtagS, cQuote, cColon, List.append_assoc, List.cons_append, List.nil_append,
+    List.cons.injEq, true_and] at h
+  obtain ⟨e1, h⟩ := split_first_unique 58 _ _ _ _ (colon_not_mem_hex i) (colon_not_mem_hex i') h
+  obtain ⟨e2, h⟩ := split_first_unique 58 _ _ _ _ (colon_not_mem_hex l) (colon_not_mem_hex l') h
+  obtain ⟨e3, h⟩ := split_first_unique 58 _ _ _ _ (colon_not_mem_signedHex b s)
+    (colon_not_mem_signedHex b' s') h
+  obtain ⟨e4, _⟩ := split_first_unique 34 _ _ _ _ (quote_not_mem_hex n) (quote_not_mem_hex n') h
+  obtain ⟨eb, es⟩ := signedHex_injective _ _ _ _ e3
+  exact ⟨hex_injective _ _ e1, hex_injective _ _ e2, eb, es, hex_injective _ _ e4⟩
+
 end HS
